@@ -130,9 +130,9 @@ def correspond(ctx, name, cases):
                        list)
 
 
-def outcome(fun, *args):
+def outcome(fun, *args, **kwargs):
     try:
-        return fun(*args)
+        return fun(*args, **kwargs)
     except Exception as err:  # noqa: the observable is the class name
         return Exn(type(err).__name__)
 
@@ -238,7 +238,7 @@ def gen_param_value(rng, maxlen=5):
                    for _ in range(rng.randrange(1, maxlen + 1)))
 
 
-PARAM_KEYS = ["a", "filename", "name", "charset", "file_name", "b", "x-y",
+PARAM_KEYS = ["a", "filename", "fname", "charset", "file_name", "b", "x-y",
               "q", "boundary"]
 
 
@@ -296,9 +296,12 @@ def run(ctx):
             text = units + "=" + "1" + "0" * 4300 + "-"
         else:
             text = write_ranges(units, rs)
-            cases.append(("run_render_ranges %s %s" % (slit(units),
-                                                       ranges_lit(rs)),
-                          text, ("render_ranges", units, len(rs))))
+            # (the model's dec divides by 10 bit by bit: 4300-digit numbers
+            # are only parsed, not rendered, by the model)
+            if all(x is None or x < 10 ** 200 for r in rs for x in r):
+                cases.append(("run_render_ranges %s %s" % (
+                    slit(units), ranges_lit(rs)), text,
+                    ("render_ranges", units, len(rs))))
         got = outcome(H.parse_range, text)
         cases.append(("run_parse_range %s" % slit(text), got,
                       ("parse_range", text[:200])))
